@@ -30,6 +30,12 @@ checks = {
          "20k/300k requests whose triple the service accepts (pass-through) or whose path matches nothing (unknown-endpoint handler), with arbitrary headers, queries, bodies and lengths; the downstream handler's view must equal a snapshot taken before ServeHTTP, and the client must receive exactly what the handler wrote.", "5/C13"),
  "C18": ("fault_enumeration", "invocation counters, context capture and after-return I/O flags over an enumeration of rejection classes and exit paths",
          "18 rejection classes x client forms x random configurations and 5 exit-path classes (30k/600k executions, race-detector build): at most one dispatch, none for rejected requests, handler context cancelled and no reads/writes after ServeHTTP returned.", "5/C18"),
+ "C17": ("exploration", "reference servability predicate (known refusal reasons) + probes of accepted configurations",
+         "6k/120k generated configurations: valid bases with (in 60%) one injected reason to be refused out of 25 classes - NewTranscoder must return an error and no transcoder for those, and for accepted configurations every binding must be reachable through the URL rendered from its template and land on the declared method, exact selectors must bind only the named method, per-service options must beat defaults on the wire.", "5/C17"),
+ "C19": ("exploration", "GET safety oracle + GET-vs-POST decode equivalence + self-calibrated URL-length boundary",
+         "12k/240k cases: Connect GET refused with 405+Allow unless the method is side-effect-free and never dispatched; GET and POST with the same content decode to the same backend message for every query encoding; a GET seen by the backend implies a GET client request, a side-effect-free method, a stable codec and a URL within the limit (boundary triples U-1/U/U+1 with U observed under a huge limit).", "5/C19"),
+ "C20": ("exploration", "metamorphic differential between generated and dynamically loaded schemas, and between vanguardgrpc and by-name registration",
+         "12k/240k scenario pairs over the Library/Content services executed against a transcoder built from generated code and one built from re-parsed descriptors (dynamic http options), know-nothing / partial resolvers, parent-less service descriptors; and a grpc.Server wrapped by vanguardgrpc vs registered by name. Canonical outcomes on both sides must be equal.", "5/C20"),
  "C05": ("exploration", "per-key metadata equality + position check + status-key leak monitor",
          "Random application header/trailer sets are pushed through every client-form/target pairing (20k/300k scenarios); per-key ordered value equality in both directions, trailers in the position the client's protocol defines, no protocol status key in application metadata.", "5/C05"),
 }
